@@ -83,7 +83,13 @@ def run(mid, tier="quick", inplace=False):
             t0 = time.time()
             c = subprocess.run([os.path.join(ROOT, "check"), p, "--tier", tier], capture_output=True, text=True, cwd=ROOT, env=env)
             vio = [l for l in c.stdout.splitlines() if l.startswith("VIOLATION")]
-            res[p] = {"exit": c.returncode, "violations": vio[:3], "caught": c.returncode == 1 and bool(vio),
+            lines = c.stdout.splitlines()
+            first = next((i for i, l in enumerate(lines) if l.startswith("VIOLATION")), None)
+            esc = next((i for i, l in enumerate(lines) if l.startswith("ESCALATE")), None)
+            stage = None if first is None else "quick-sample" if esc is None or first < esc else \
+                "changed-code-neighbourhood" if any('"neighbourhood": true' in open(os.path.join(ROOT, v.split("replay=")[1].split()[0])).read() for v in vio[:1] if os.path.exists(os.path.join(ROOT, v.split("replay=")[1].split()[0]))) else "escalated-thorough-space"
+            res[p] = {"exit": c.returncode, "violations": vio[:3], "caught": c.returncode == 1 and bool(vio), "stage": stage,
+                      "neighbourhood": next((l for l in lines if l.startswith("NEIGHBOURHOOD")), None),
                       "no_failing_input": any("no-failing-input-found" in v for v in vio) and not any("no-failing-input-found" not in v for v in vio),
                       "wall_s": round(time.time() - t0, 1), "stderr_tail": c.stderr[-300:] if c.returncode == 2 else ""}
     finally:
